@@ -506,9 +506,13 @@ main(void)
     OPT { storage_set(dev, &p); CHK; }
     OPT { if (storage_start(dev) == Device_Ok) ++starts; CHK; }
     OPT { DO_APPEND; CHK; }
+#ifndef LIFE_SHORT
     OPT { DO_APPEND; CHK; }
+#endif
     OPT { storage_stop(dev); CHK; }
+#ifndef LIFE_SHORT
     OPT { storage_stop(dev); CHK; }
+#endif
     storage_close(dev);
     VASSERT(destroyed == 1, "close did not destroy the device exactly once");
     CHK;
